@@ -18,6 +18,7 @@ const c02ArgsSDL = `type Query {
   opt(s: String, n: Int, ok: Boolean): String
   mix(s: String!, n: Int, f: Float): String
   size(unit: String!, n: Int): Int
+  dflt(s: String = "World", n: Int = 2): String
 }`
 
 // reflection root: Go methods with the natural parameter types
@@ -35,6 +36,10 @@ func (*c02ReflectArgs) Say(s string, ok bool) string      { return fmt.Sprintf("
 func (*c02ReflectArgs) Opt(s string, n int32, ok bool) string {
 	return fmt.Sprintf("opt %q %d %v", s, n, ok)
 }
+
+// arguments with defaults in the schema: whatever the library does with the default of an argument that is left
+// out (it hands nothing on: the zero value), every strategy sees the same
+func (*c02ReflectArgs) Dflt(s string, n int32) string { return fmt.Sprintf("dflt %q %d", s, n) }
 func (*c02ReflectArgs) Mix(s string, n int32, f float32) string {
 	return fmt.Sprintf("mix %q %d %v", s, n, f)
 }
@@ -66,6 +71,10 @@ func (r *c02ResolverArgs) Resolve(f *ggql.Field, args map[string]interface{}) (i
 		return fmt.Sprintf("opt %q %d %v", str, n, ok), nil
 	case "size":
 		return int32(3), nil
+	case "dflt":
+		str, _ := args["s"].(string)
+		n, _ := args["n"].(int32)
+		return fmt.Sprintf("dflt %q %d", str, n), nil
 	case "mix":
 		str, _ := args["s"].(string)
 		n, _ := args["n"].(int32)
@@ -132,6 +141,7 @@ func c02ArgsStream(o *Out, rng *Rng, n int) {
 		{"opt", [][2]string{{"s", "String"}, {"n", "Int"}, {"ok", "Boolean"}}},
 		{"mix", [][2]string{{"s", "String!"}, {"n", "Int"}, {"f", "Float"}}},
 		{"size", [][2]string{{"unit", "String!"}, {"n", "Int"}}},
+		{"dflt", [][2]string{{"s", "String"}, {"n", "Int"}}},
 	}
 	for i := 0; i < n; i++ {
 		f := Pick(rng, fields)
